@@ -18,7 +18,9 @@ import (
 	"fmt"
 	"strings"
 
+	"github.com/go-openapi/errors"
 	"github.com/go-openapi/spec"
+	"github.com/go-openapi/strfmt"
 )
 
 // defaultValidator validates default values in a spec.
@@ -245,7 +247,7 @@ func (d *defaultValidator) validateDefaultValueSchemaAgainstSchema(path, in stri
 
 	if schema.Default != nil {
 		res.Merge(
-			newSchemaValidator(schema, s.spec.Spec(), path+".default", s.KnownFormats, d.schemaOptions).Validate(schema.Default),
+			validateValueAgainstSchema(schema, s.spec.Spec(), path+".default", s.KnownFormats, d.schemaOptions, schema.Default),
 		)
 	}
 	if schema.Items != nil {
@@ -284,6 +286,22 @@ func (d *defaultValidator) validateDefaultValueSchemaAgainstSchema(path, in stri
 }
 
 // TODO: Temporary duplicated code. Need to refactor with examples
+
+// validateValueAgainstSchema validates a default or example value against the schema that carries it.
+//
+// Building the validators panics (as documented for NewSchemaValidator) when the schema holds a $ref that cannot be
+// resolved, possibly deep inside and only met while validating. When validating a spec, such a schema is an error
+// of the document (reported as such), not a reason to abort the validation of the whole spec.
+func validateValueAgainstSchema(schema *spec.Schema, root interface{}, path string, formats strfmt.Registry, opts *SchemaValidatorOptions, value interface{}) (res *Result) {
+	defer func() {
+		if r := recover(); r != nil {
+			res = pools.poolOfResults.BorrowResult()
+			res.AddErrors(errors.New(errors.CompositeErrorCode, "%v", r))
+		}
+	}()
+
+	return newSchemaValidator(schema, root, path, formats, opts).Validate(value)
+}
 
 func (d *defaultValidator) validateDefaultValueItemsAgainstSchema(path, in string, root interface{}, items *spec.Items) *Result {
 	res := pools.poolOfResults.BorrowResult()
